@@ -34,6 +34,9 @@ class Unsupported(Exception):
   """The code left the supported subset; the obligation is undecided."""
 
 
+PY_TRUTH = z3.Function('py_truth', z3.IntSort(), z3.BoolSort())
+
+
 class PyRaise(Exception):
   def __init__(self, exc):
     super().__init__(repr(exc))
@@ -495,6 +498,11 @@ class Interp:
       h = self.policy.handlers.get(('truth', v.cls))
       if h is not None:
         return h(self, v)
+      if v.cls is object and v.ghost.get('id') is not None:
+        # an abstract reference of class `object` stands for an arbitrary Python
+        # value (0, '', an empty Flag, ... are falsy): its truth value is an
+        # unknown function of the value
+        return PY_TRUTH(v.ghost['id'])
       for klass in v.cls.__mro__:
         if '__bool__' in klass.__dict__ or '__len__' in klass.__dict__:
           if klass in (object,):
